@@ -21,6 +21,8 @@ DECIDED_MORE = ('Also: the stored status code is an int on every path; no equali
 DECIDED = DECIDED + ' ' + DECIDED_MORE
 DECIDED_R6 = ('Round 6: blacklist applied to the name of the stored pair; the two halves of the status written together; every pair entering the header list is transcoded; setters store on every returning path; an unscanned short cut only for None and the exact builtin numbers.')
 DECIDED = DECIDED + ' ' + DECIDED_R6
+DECIDED_R7 = ('Round 7: nothing can raise between the two stores of the status pair; no stored header value is already in wire form.')
+DECIDED = DECIDED + ' ' + DECIDED_R7
 NOT_DECIDED = ('"decodes back to the original text": codec semantics of utf8/latin1 (assumed injective); header *names*; '
                'HeaderDict.update and list-valued setdefault are not single-value setters in the statement (reported as notes).')
 ASSUMPTIONS = ["s.encode('utf8').decode('latin1') is total and injective", 'str(x) of int/float/bool/None contains no control characters']
